@@ -118,7 +118,7 @@ def run(ctx):
     if not c2:
         raise vlib.Infra("coverage target 'advance purchase after an upgrade in the same epoch' not reachable in the model")
     adv = lambda a, n: {"a": a, "cr": "", "c": "", "p": "", "d": 0, "f": False, "n": n}  # noqa: E731
-    cands.append(c2 + [adv("epoch", 20), adv("month", 1), adv("month", 1)])
+    cands.append(c2 + [adv("epoch", 20), adv("month", 1), adv("epoch", 19), adv("month", 1)])   # (an epoch is shorter than a month)
     if not _next_month(ctx):
         return
     n = ctx.pick(60, 400)
